@@ -104,7 +104,7 @@ var knownKeywords = map[string]bool{
 	"func": true, "iface": true, "ghost": true, "chaninv": true, "smtfun": true, "spec": true, "axiom": true, "lemma": true,
 	"requires": true, "ensures": true, "maintains": true, "modifies": true, "pure": true, "pure_const": true, "inline": true, "let": true, "loop": true,
 	"panics_iff": true, "ensures_on_panic": true, "replay": true, "nopanic": true, "synchronous": true, "params": true, "results": true,
-	"trusted": true, "floor": true, "callee": true, "use": true, "extern": true,
+	"trusted": true, "floor": true, "callee": true, "use": true, "extern": true, "decreases": true,
 }
 
 func parsePropsLabel(s string) (props []string, label string) {
@@ -277,6 +277,9 @@ func (sf *SpecFile) load(path string, extern bool) error {
 		default:
 			if cur == nil {
 				return fail(l, "clause outside a func block: %q", t)
+			}
+			if (first == "pure" || first == "pure_const" || first == "trusted" || first == "inline" || strings.HasPrefix(first, "nopanic") || strings.HasPrefix(first, "synchronous")) && rest != "" {
+				return fail(l, "unexpected text after %s: %q", first, rest)
 			}
 			switch {
 			case first == "pure":
